@@ -1,6 +1,7 @@
 import Driver.Common
 import GeosModel.Generated.Api
 import GeosModel.Model.Api.Bridge
+import GeosModel.Model.Api.Construct
 /-!
 Driver for C12 (`drv_c12 api-seq`): replays an observed C API call sequence (written by `harness/c12.cpp`)
 through the ownership-discipline model `GeosModel.Api.step`, with signatures and error values taken from
@@ -14,7 +15,15 @@ Checked per call
 * the call did not return (crash / sanitizer report / hang) — never allowed;
 * no live object other than the `modify` arguments changed its bit image; the result pointer is not the
   pointer of a live object; constructive results carry the SRID of the first geometry argument.
+* a call that is refused (error value) must have handed every geometry / coordinate sequence it consumed to the
+  deallocator while it ran (fact `F`: the harness watches the consumed addresses with the sanitizer's free hook): the
+  model marks consumed objects dead whatever the outcome, so the caller cannot free them any more;
+* `GEOSSTRtree_query_r` (fact `Q`): the callback ran once for every inserted, not removed item whose envelope intersects
+  the query envelope.
 At `END`: nothing may be alive in the model, and the child must have exited cleanly (no leak report).
+
+`drv_c12 ctor-own`: one constructor call per line (harness/c12_own.h); the answer is the prediction of
+`GeosModel.Api.Construct` — outcome, type id of the result, fate of every argument.
 
 Interruption: `GEOS_interruptRegisterCallback i:<k>` is the harness's record of arming the next call (a callback that
 requests an interruption at the k-th checkpoint poll; unregistered and cancelled when that call has returned).  It is
@@ -81,6 +90,10 @@ structure Facts where
   srid : Option (Int × Int)
   changed : List Nat
   oob : Bool
+  /-- consumed arguments seen by the free hook while the call ran (`none`: fact not reported) -/
+  freed : Option (List Nat) := none
+  /-- `GEOSSTRtree_query_r`: callback invocations, items a scan finds -/
+  query : Option (Nat × Nat) := none
 
 def parseSrid (s : String) : Option (Option (Int × Int)) :=
   if s == "-" then some none
@@ -90,8 +103,17 @@ def parseSrid (s : String) : Option (Option (Int × Int)) :=
       | _, _ => none
     | _ => none
 
-def parseFacts : List String → Option Facts
-  | [r] => (parseRet r).map (fun r => ⟨r, false, [], none, none, [], false⟩)
+def parseQuery (s : String) : Option (Option (Nat × Nat)) :=
+  if s == "Q-" then some none
+  else if s.startsWith "Q" then
+    match (after s 1).splitOn ":" with
+    | [a, b] => match a.toNat?, b.toNat? with
+      | some a, some b => some (some (a, b))
+      | _, _ => none
+    | _ => none
+  else none
+
+def parseFacts7 : List String → Option Facts
   | [r, m, res, al, sr, ch, ob] => do
     let r ← parseRet r
     let msg ← if m == "m1" then some true else if m == "m0" then some false else none
@@ -99,8 +121,22 @@ def parseFacts : List String → Option Facts
     let al ← if al == "a-" then some none else if al.startsWith "a" then (after al 1).toNat?.map some else none
     let sr ← if sr.startsWith "s" then parseSrid (after sr 1) else none
     let ch ← if ch.startsWith "M" then parseIds (after ch 1) else none
-    some ⟨r, msg, res, al, sr, ch, ob == "O1"⟩
+    some ⟨r, msg, res, al, sr, ch, ob == "O1", none, none⟩
   | _ => none
+
+def parseFacts : List String → Option Facts
+  | [r] => (parseRet r).map (fun r => ⟨r, false, [], none, none, [], false, none, none⟩)
+  | [r, m, res, al, sr, ch, ob] => parseFacts7 [r, m, res, al, sr, ch, ob]
+  | [r, m, res, al, sr, ch, ob, fr, q] => do
+    let f ← parseFacts7 [r, m, res, al, sr, ch, ob]
+    let fr ← if fr.startsWith "F" then parseIds (after fr 1) else none
+    let q ← parseQuery q
+    some { f with freed := some fr, query := q }
+  | _ => none
+
+/-- the consumed arguments that are geometries or coordinate sequences (what the harness watches) -/
+def consumedData (c : Call) : List Nat :=
+  (c.args.filter (fun a => a.mode == .consume && (a.kind == .geom || a.kind == .coordSeq))).flatMap (·.ids)
 
 def splitArrow (ws : List String) : List String × List String :=
   (ws.takeWhile (· ≠ "=>"), (ws.dropWhile (· ≠ "=>")).drop 1)
@@ -122,8 +158,22 @@ def interruptCall (lhs rhs : List String) : Option String :=
       | .abnormal cls => some cls
       | _ => some "bad-facts"
 
-/-- one call; `Except.error` carries the verdict that ends the replay (`ok` for a tolerated early end) -/
-def oneCall (k : Nat) (h : Heap) (ws : List String) : Except String Heap := do
+/-- Documented precondition beyond ownership (geos_c.h, `GEOSSTRtree_build` / `query` / `nearest` / `nearest_generic` / `remove`:
+"The tree will automatically be constructed if necessary, after which no more items may be added"): these calls build the
+tree they are given (`GEOSSTRtree_iterate_r` does not). -/
+def treeBuilders : List String :=
+  ["GEOSSTRtree_build_r", "GEOSSTRtree_query_r", "GEOSSTRtree_nearest_r", "GEOSSTRtree_nearest_generic_r", "GEOSSTRtree_remove_r"]
+
+/-- the tree argument (first object token) of an STRtree call -/
+def treeArg (lhs : List String) : Option Nat :=
+  match lhs.drop 1 with
+  | t :: _ => if t.startsWith "o" then (after t 1).toNat? else none
+  | [] => none
+
+/-- one call; `Except.error` carries the verdict that ends the replay (`ok` for a tolerated early end).  `built`: the trees
+that were built so far; an insertion into one of them leaves the documented preconditions, nothing is demanded of the
+rest of such a sequence. -/
+def oneCallH (k : Nat) (h : Heap) (ws : List String) : Except String Heap := do
   let (lhs, rhs) := splitArrow ws
   let fname := lhs.headD "?"
   let bad (why : String) : Except String Heap := .error s!"V {k} {fname} {why}"
@@ -161,6 +211,12 @@ def oneCall (k : Nat) (h : Heap) (ws : List String) : Except String Heap := do
     else if f.alias.isSome then bad s!"result-aliases-live-object:{f.alias.getD 0}"
     else if !(f.changed.all (fun i => c.mutated.contains i)) then
       bad s!"const-or-unrelated-object-modified:{f.changed.filter (fun i => !c.mutated.contains i)}"
+    else if obs == .err && (match f.freed with
+        | some fr => !(consumedData c).all (fun i => fr.contains i)
+        | none => false) then
+      bad s!"consumed-argument-not-freed-by-refused-call:{(consumedData c).filter (fun i => !(f.freed.getD []).contains i)}"
+    else if (match f.query with | some (hits, scan) => hits != scan | none => false) then
+      bad s!"tree-query-differs-from-scan:{(f.query.getD (0, 0)).1}:{(f.query.getD (0, 0)).2}"
     else
       match f.srid with
       | some (a, b) =>
@@ -168,6 +224,16 @@ def oneCall (k : Nat) (h : Heap) (ws : List String) : Except String Heap := do
           bad s!"srid-not-propagated:{a}:{b}"
         else .ok h'
       | none => .ok h'
+
+def oneCall (k : Nat) (st : Heap × List Nat) (ws : List String) : Except String (Heap × List Nat) := do
+  let (lhs, _) := splitArrow ws
+  let fname := lhs.headD "?"
+  let t := treeArg lhs
+  if fname == "GEOSSTRtree_insert_r" && (match t with | some t => st.2.contains t | none => false) then
+    throw "ok"     -- precondition "no more items may be added" broken by the caller: outside the property's quantifier
+  let h' ← oneCallH k st.1 ws
+  let built := if treeBuilders.contains fname then (match t with | some t => t :: st.2 | none => st.2) else st.2
+  return (h', built)
 
 def splitCalls (ws : List String) : List (List String) :=
   let rec go (cur : List String) (acc : List (List String)) : List String → List (List String)
@@ -179,18 +245,67 @@ def splitCalls (ws : List String) : List (List String) :=
 def replay (line : String) : String :=
   match splitCalls (Driver.tokens line) with
   | ["SEQ"] :: calls =>
-    let rec go (k : Nat) (h : Heap) : List (List String) → String
+    let rec go (k : Nat) (st : Heap × List Nat) : List (List String) → String
       | [] => "V end - missing-END"
       | ["END", cls] :: _ =>
         if cls != "ok" then s!"V {k} END {cls}"
-        else if h.any (·.live) then s!"V {k} END objects-alive-in-model-after-all-destroys"
+        else if st.1.any (·.live) then s!"V {k} END objects-alive-in-model-after-all-destroys"
         else "ok"
       | ws :: rest =>
-        match oneCall k h ws with
+        match oneCall k st ws with
         | .error v => v
-        | .ok h' => go (k + 1) h' rest
-    go 0 [] calls
+        | .ok st' => go (k + 1) st' rest
+    go 0 ([], []) calls
   | _ => "bad-line"
+
+/-! ### stream `ctor-own` -/
+open GeosModel.Api.Construct in
+def parseCls : String → Option GCls
+  | "pt" => some .point | "ls" => some .lineString | "lr" => some .linearRing | "cs" => some .circularString
+  | "cc" => some .compoundCurve | "pg" => some .polygon | "cp" => some .curvePolygon | "mpt" => some .multiPoint
+  | "mls" => some .multiLineString | "mpg" => some .multiPolygon | "mcu" => some .multiCurve | "msu" => some .multiSurface
+  | "gc" => some .geometryCollection | _ => none
+
+open GeosModel.Api.Construct in
+/-- `null` or `<class>,<0|1>,<first>,<last>`; the outer `Option` is the parse result -/
+def parseMember (t : String) : Option (Option Member) :=
+  if t == "null" then some none
+  else match t.splitOn "," with
+    | [c, e, a, b] => do
+      let cls ← parseCls c
+      let a ← a.toNat?
+      let b ← b.toNat?
+      if e != "0" && e != "1" then none
+      else some (some ⟨cls, e == "1", a, if cls == .linearRing then a else b⟩)
+    | _ => none
+
+open GeosModel.Api.Construct in
+def parseCtor : List String → Option Ctor
+  | "coll" :: t :: ms => do some (.coll (← t.toInt?) (← ms.mapM parseMember))
+  | "poly" :: s :: hs => do some (.poly (← parseMember s) (← hs.mapM parseMember))
+  | "cpoly" :: s :: hs => do some (.cpoly (← parseMember s) (← hs.mapM parseMember))
+  | "ccurve" :: ms => do some (.ccurve (← ms.mapM parseMember))
+  | ["point", n] => n.toNat?.map .point
+  | ["line", n] => n.toNat?.map .line
+  | ["circ", n] => n.toNat?.map .circ
+  | ["ring", n, c] => if c == "c" || c == "o" then n.toNat?.map (.ring · (c == "c")) else none
+  | _ => none
+
+open GeosModel.Api.Construct in
+def fateChar : Fate → Char
+  | .null => '-' | .freed => 'F' | .moved => 'R' | .raw => 'L' | .held => 'H'
+
+open GeosModel.Api.Construct in
+def ctorOwn (line : String) : String :=
+  if line == "LSAN" then "clean" else
+  match parseCtor (Driver.tokens line) with
+  | none => "bad-case"
+  | some c =>
+    let r := c.run
+    let fs := if r.fates.isEmpty then "." else String.ofList (r.fates.map fateChar)
+    match r.out with
+    | .ok t => s!"ok {t} {fs}"
+    | .err => s!"err {fs}"
 
 end Driver.C12
 
@@ -199,4 +314,7 @@ def main (args : List String) : IO UInt32 := do
   | ["api-seq"] =>
     Driver.loop (← IO.getStdin) (← IO.getStdout) Driver.C12.replay
     return 0
-  | _ => IO.eprintln "usage: drv_c12 api-seq"; return 2
+  | ["ctor-own"] =>
+    Driver.loop (← IO.getStdin) (← IO.getStdout) Driver.C12.ctorOwn
+    return 0
+  | _ => IO.eprintln "usage: drv_c12 api-seq | ctor-own"; return 2
